@@ -3,6 +3,7 @@ import math
 import numpy as np
 from hypothesis import strategies as st, assume
 
+from ..fuzz import fuzzed
 from ..core import Obligation, Out
 from .. import cat
 from ..strat import uni, logu, pos
@@ -168,3 +169,6 @@ OBLIGATIONS = [
     Obligation('residual-jacobians', residual_case(), check_residual, quick=1000, thorough=40000),
     Obligation('newton-jump-conditions', cat.bbnoh_case(n_min=1, n_max=1), check_newton, quick=400, thorough=15000),
 ]
+# coverage-guided supplement (atheris / libFuzzer over the same strategy and oracle; see vp/fuzz.py)
+OBLIGATIONS.append(fuzzed([o for o in OBLIGATIONS if o.name == 'eos-closures-and-partials'][0], quick=0, thorough=100000, modules=('exactpack.solvers.nohblackboxeos',)))
+OBLIGATIONS.append(fuzzed([o for o in OBLIGATIONS if o.name == 'residual-jacobians'][0], quick=0, thorough=60000, modules=('exactpack.solvers.nohblackboxeos',)))
